@@ -441,6 +441,7 @@ func (g *VerifC05Gate) GetType() string                 { return g.Inner.GetType
 type VerifC05Backend struct {
 	DB      SessionDatabase
 	Nodes   []SessionDatabase // several nodes sharing one store (each with its own in-process state); nil: one node
+	Dyn     func() SessionDatabase // if set: how a request obtains the database on every access (the engine's accessor)
 	Gate    *VerifC05Gate
 	Advance func(d time.Duration) // clock control (redis back-end only)
 	Close   func()
@@ -505,8 +506,57 @@ func VerifC05RedisBackend(x *VerifC05Exec, watch func(string) bool) (*VerifC05Ba
 		}}, nil
 }
 
+// VerifC05Engines: real storage engines (built and configured once by the test, the way the node does it), by back-end name
+var VerifC05Engines = map[string]Engine{}
+
+// VerifC05EngineBackend: the session database the REAL engine built in Configure and hands out through GetSessionDatabase();
+// only its underlying store is replaced by a gated fresh one (same construction as the database's own)
+func VerifC05EngineBackend(x *VerifC05Exec, name string, watch func(string) bool) (*VerifC05Backend, error) {
+	eng, ok := VerifC05Engines[name].(*engine)
+	if !ok {
+		return nil, fmt.Errorf("no engine registered for %s", name)
+	}
+	switch db := eng.sessionDatabase.(type) {
+	case *InMemorySessionDatabase:
+		client := gocacheclient.New(defaultSessionDataTTL, 0)
+		g := &VerifC05Gate{Inner: go_cache.NewGoCache(client), Exec: x, Watch: watch}
+		db.underlying = cache.New[[]byte](g)
+		return &VerifC05Backend{DB: db, Gate: g, Close: func() {}, Dyn: eng.GetSessionDatabase,
+			Keys: func() []string {
+				var r []string
+				for k := range client.Items() {
+					r = append(r, k)
+				}
+				sort.Strings(r)
+				return r
+			}}, nil
+	case redisSessionDatabase:
+		if err := db.client.FlushAll(context.Background()).Err(); err != nil {
+			return nil, err
+		}
+		g := &VerifC05Gate{Inner: redisstore.NewRedis(db.client), Exec: x, Watch: watch,
+			Norm: func(k string) string { return strings.ReplaceAll(k, ".", "/") }}
+		db.underlying = cache.New[string](g)
+		eng.sessionDatabase = db
+		c := db.client
+		return &VerifC05Backend{DB: db, Gate: g, Close: func() {}, Dyn: eng.GetSessionDatabase,
+			Keys: func() []string {
+				r, _ := c.Keys(context.Background(), "*").Result()
+				for i := range r {
+					r[i] = strings.ReplaceAll(r[i], ".", "/")
+				}
+				sort.Strings(r)
+				return r
+			}}, nil
+	}
+	return nil, fmt.Errorf("engine %s has an unexpected session database %T", name, eng.sessionDatabase)
+}
+
 // DBFor returns the session database of the node that serves thread i
 func (b *VerifC05Backend) DBFor(i int) SessionDatabase {
+	if b.Dyn != nil {
+		return b.Dyn()
+	}
 	if len(b.Nodes) == 0 {
 		return b.DB
 	}
@@ -667,6 +717,11 @@ func (scn *VerifC05Scn) setup(level VerifC05Level) VerifC05Setup {
 		if scn.Backend == "redis" {
 			var err error
 			if b, err = VerifC05RedisBackend(x, w); err != nil {
+				panic(err)
+			}
+		} else if strings.HasPrefix(scn.Backend, "engine-") {
+			var err error
+			if b, err = VerifC05EngineBackend(x, scn.Backend, w); err != nil {
 				panic(err)
 			}
 		} else if scn.Backend == "redis-multinode" {
